@@ -59,11 +59,30 @@ func (x *fnCtx) guardOf(a *Addr) (ts *TypeSpec, g *GuardDecl, fieldName string) 
 	st := a.Root.Underlying().(*types.Struct)
 	fieldName = st.Field(a.Path[0]).Name()
 	for i := range ts.Guards {
-		if ts.Guards[i].Field == fieldName {
+		if ts.Guards[i].Field == fieldName && !ts.Guards[i].ChanOnly {
 			return ts, &ts.Guards[i], fieldName
 		}
 	}
 	return ts, nil, fieldName
+}
+
+// chanGuardOf returns the `chan f guarded_by mu` declaration for the field addressed by a.
+func (x *fnCtx) chanGuardOf(a *Addr) (ts *TypeSpec, g *GuardDecl) {
+	if a == nil || a.Kind != AObj || len(a.Path) == 0 {
+		return nil, nil
+	}
+	ts = x.typeSpecOf(a.Root)
+	if ts == nil {
+		return nil, nil
+	}
+	st := a.Root.Underlying().(*types.Struct)
+	fieldName := st.Field(a.Path[0]).Name()
+	for i := range ts.Guards {
+		if ts.Guards[i].Field == fieldName && ts.Guards[i].ChanOnly {
+			return ts, &ts.Guards[i]
+		}
+	}
+	return ts, nil
 }
 
 func (x *fnCtx) lockIDFor(a *Addr, lockField string) *Term {
@@ -107,7 +126,7 @@ func (x *fnCtx) lockCheckAccess(st *State, fr *Frame, in ssa.Instruction, a *Add
 		if write {
 			x.addVC(st, short, "guard", x.ord(fr, in), "", fresh, desc+" (immutable after construction)", x.eng.posStr(in.Pos()))
 		}
-	case "owned":
+	case "owned", "stable":
 	default:
 		id := x.lockIDFor(target, g.Lock)
 		cur := Select(lockArr(st.heap), id)
@@ -126,7 +145,7 @@ func (x *fnCtx) lockCheckMap(st *State, fr *Frame, in ssa.Instruction, m *Val, w
 		return
 	}
 	ts, g, fname := x.guardOf(m.Src)
-	if ts == nil || g == nil || g.Lock == "immutable" || g.Lock == "owned" {
+	if ts == nil || g == nil || g.Lock == "immutable" || g.Lock == "owned" || g.Lock == "stable" {
 		if g != nil && g.Lock == "immutable" {
 			// the field is immutable but the map contents are not protected by that
 		}
@@ -186,6 +205,15 @@ func (x *fnCtx) havocGuarded(st *State, owner *Addr, lockField string) {
 		}
 		ft := stt.Field(idx).Type()
 		name, _ := heapKeyStruct(owner.Root, []int{idx})
+		if g.ChanOnly {
+			fa := &Addr{Kind: AObj, Base: owner.Base, Root: owner.Root, Path: []int{idx}, Elem: ft}
+			cur := x.load(st, fa)
+			closed := x.heapArr(st, "$chanclosed", ArrSort(SInt, SBool))
+			nc := Fresh("havoc.closed", SBool)
+			st.assume(Implies(Select(closed, cur.L[0]), nc)) // closing is monotone
+			x.setHeap(st, "$chanclosed", Store(closed, cur.L[0], nc))
+			continue
+		}
 		// contents first (they are reached through the old header)
 		fa := &Addr{Kind: AObj, Base: owner.Base, Root: owner.Root, Path: []int{idx}, Elem: ft}
 		cur := x.load(st, fa)
